@@ -161,6 +161,9 @@ def run_case(inp):
     for i in range(nm):
         Rstar = Rotation.random(random_state=inp["seed"] + 10 * i)
         pstar = np.array([22.0, 21.0, 23.0]) + r.uniform(-0.5, 0.5, size=3)
+        if inp.get("near_face") is not None:
+            # the box sticks out of a lower face by two voxels (the particle itself, compact, is fully inside)
+            pstar[int(inp["near_face"])] = (n - 1) / 2 - 2.0 + r.uniform(-0.4, 0.4)
         V = _place(tmpl, N, pstar, Rstar)
         Q = rots[inp["ks"][i % len(inp["ks"])] % len(rots)]
         d = np.array(inp["d"], dtype=float) * (1 if i % 2 == 0 else -1)
@@ -263,6 +266,10 @@ def oracle(rng, thorough, deep=False, hints=None):
     for it, sc in enumerate([0.01, 37.5, 0.003][: 3 if big else 2]):
         cases.append(dict(via=["single", "batch", "group"][it % 3], model=["ZNCC", "PCC", "NCC"][it % 3], n=16, scale=sc, K=1, ks=[0],
                           nmol=2 if it % 3 else 1, d=[0.5, -1.5, 1.0], max_shifts=2.0, seed=int(rng.integers(0, 10 ** 6))))
+    for it in range(6 if big else 3):
+        cases.append(dict(via=["single", "batch", "group"][it % 3], model=["ZNCC", "NCC", "PCC"][it % 3], n=int([15, 16, 17][it % 3]),
+                          scale=float([1.0, 0.5][it % 2]), K=1, ks=[0], nmol=2 if it % 3 else 1, near_face=it % 3,
+                          d=[float(x) for x in rng.integers(-1, 2, size=3)], max_shifts=2.0, seed=int(rng.integers(0, 10 ** 6))))
     for it in range(20 if big else 6):
         K = [3, 1, 4][it % 3]
         cases.append(dict(via=vias[it % len(vias)], model=["ZNCC", "NCC", "PCC"][it % 3] if it % 4 != 3 else "ZNCC",
